@@ -2109,3 +2109,23 @@ V("C28-revert-fix-binary-recheck-without-request","C28","pkg/services/object/acl
 			hdrSrcOpts = append(hdrSrcOpts, eaclV2.WithRequestXHeaders(req))
 		}
 ""","",rule="C28.R7")
+WFL="pkg/local_object_storage/writecache/flush.go"
+V("C17-revert-fix-batches-lag-by-one","C17",WFL,"""					if handledAddr {
+						b = sortedAddrs[i+1 : i+1]
+					} else {
+						b = sortedAddrs[i:i]
+					}""","""					b = sortedAddrs[i:i]""",rule="C17.R8")
+V("C17-batch-rebase-always-next","C17",WFL,"""					if handledAddr {
+						b = sortedAddrs[i+1 : i+1]
+					} else {
+						b = sortedAddrs[i:i]
+					}""","""					b = sortedAddrs[i+1 : i+1]""",rule="C17.R8")
+V("C17-batch-rebase-inverted-test","C17",WFL,"""					if handledAddr {
+						b = sortedAddrs[i+1 : i+1]
+					} else {
+						b = sortedAddrs[i:i]
+					}""","""					if !handledAddr {
+						b = sortedAddrs[i:i]
+					} else {
+						b = sortedAddrs[i+1 : i+1]
+					}""",expect="silent")
